@@ -252,7 +252,7 @@ def run_method(dm, name, rng_seed):
 
 
 def gen_dm(rng):
-    c = gen.dm_case(rng, nmax=5, mmax=3, nmin=3, mmin=2, positive=True, modes=("dyadic", "float"), structure=True,
+    c = gen.dm_case(rng, nmax=5, mmax=3, nmin=3, mmin=2, positive=True, modes=("dyadic", "float"), structure=True, label_kinds=False,
                     big=0.0)
     for i in range(len(c["matrix"])):
         for k in range(i):
